@@ -1,10 +1,18 @@
 import XjsModel.Proofs.Lexer
+import XjsModel.Proofs.LexerTiling
 /-
   C10 — Lexing is total and tokens tile the source with exact positions.
 
   Quantifier: ALL byte strings (any values, any length). Model: `XjsModel/Model/Lexer.lean`
   (`lexAll`, `nextToken`, `readChar`). Specification of positions: `lc src off` = line/column obtained by
   counting line feeds in `src[0, off)` (0-based line, byte column).
+
+  `token_step` is the whole property for ONE request of a token from any cursor that agrees with the source, and
+  `requests_agree_with_source` shows that every request `lexAll` makes is from such a cursor, each starting where the
+  previous token ended: gap (whitespace and `//` comments only, `Tiling.TriviaRun`, a trusted 4-rule specification),
+  after-newline flag = "the gap contains a line feed", start position = position of the first byte, end position on
+  or immediately after the last byte and inside the source, identifier / keyword / number literals = the source
+  slice, keywords classified by the (re-extracted) keyword table.
 -/
 namespace Xjs.C10
 open Xjs
@@ -99,6 +107,140 @@ theorem eof_only_at_end (s : LS) (h : (nextToken s).1.type = .eof) : (readChars 
 theorem progress (s : LS) (h : (nextToken s).1.type ≠ .eof) : (nextToken s).2.rest.length < s.rest.length :=
   nextToken_progress s h
 
+
+/-- the bytes of the source from offset `a` up to offset `b` -/
+def slice (src : Bytes) (a b : Nat) : Bytes := (src.drop a).take (b - a)
+
+/-- where the token starts: the cursor offset plus what `readLeadingComments` skips -/
+def gapEnd (s : LS) : Nat := s.off + (trivia s.rest).len
+
+/-- ONE TOKEN REQUEST from a cursor that agrees with the source (offset `s.off`): with `g = gapEnd s` the end of the gap
+    and `eo` the cursor offset afterwards,
+    * the gap `[s.off, g)` is a run of whitespace and `//` comments inside the source, and the token's
+      after-newline flag is set exactly when the gap contains a line feed;
+    * the token starts at the line/column of `g`; the cursor afterwards (`eo`) satisfies `g ≤ eo ≤ length` and
+      again agrees with the source — the next request starts at `eo`: nothing is skipped or read twice;
+    * the token's end is the line/column of an offset `x` with `g ≤ x ≤ eo ≤ x + 1`: on or immediately after its last
+      byte, inside the source;
+    * identifier, keyword and number tokens carry exactly `src[g, eo)`, and identifier / keyword tokens are classified
+      by the keyword table applied to that text. -/
+theorem token_step (src : Bytes) (s : LS) (hi : LInv src s) :
+    gapEnd s ≤ src.length ∧ Tiling.TriviaRun (slice src s.off (gapEnd s)) ∧
+    (nextToken s).1.nl = (slice src s.off (gapEnd s)).contains 10 ∧
+    ((nextToken s).1.sl, (nextToken s).1.sc) = lc src (gapEnd s) ∧
+    gapEnd s ≤ (nextToken s).2.off ∧ (nextToken s).2.off ≤ src.length ∧ LInv src (nextToken s).2 ∧
+    (∃ x, ((nextToken s).1.el, (nextToken s).1.ec) = lc src x ∧ gapEnd s ≤ x ∧ x ≤ (nextToken s).2.off ∧
+      (nextToken s).2.off ≤ x + 1) ∧
+    ((nextToken s).1.type ∈ Tiling.sliceTypes → (nextToken s).1.lit = slice src (gapEnd s) (nextToken s).2.off) ∧
+    ((nextToken s).1.type ∈ Tiling.wordTypes → (nextToken s).1.type = lookupIdent (nextToken s).1.lit) := by
+  unfold gapEnd
+  obtain ⟨hk, hrun, hnl⟩ := Tiling.gap_is_trivia s
+  have hrest := hi.rest_eq
+  have hlen : s.rest.length = src.length - s.off := by rw [hrest, List.length_drop]
+  have hr1 : Reach s (readChars (trivia s.rest).len s) := ⟨_, rfl⟩
+  have hi1 := reach_inv src hr1 hi
+  have hoff1 : (readChars (trivia s.rest).len s).off = s.off + (trivia s.rest).len := by rw [readChars_off]; omega
+  have hnt : nextToken s = baseNextToken (trivia s.rest).nl (trivia s.rest).comments (readChars (trivia s.rest).len s) := rfl
+  have hstart := baseNextToken_start (trivia s.rest).nl (trivia s.rest).comments (readChars (trivia s.rest).len s)
+  have hr2 := baseNextToken_reach (trivia s.rest).nl (trivia s.rest).comments (readChars (trivia s.rest).len s)
+  have hi2 := reach_inv src hr2 hi1
+  have hge := reach_off_le hr2
+  obtain ⟨e, hre, hepos, hecur⟩ := Tiling.end_is_cursor (trivia s.rest).nl (trivia s.rest).comments (readChars (trivia s.rest).len s)
+  have hie := reach_inv src hre hi1
+  have hslice : slice src s.off (s.off + (trivia s.rest).len) = s.rest.take (trivia s.rest).len := by
+    unfold slice; rw [hrest]; congr 1; omega
+  generalize hkdef : (trivia s.rest).len = k at hk hrun hnl hr1 hi1 hoff1 hnt hstart hr2 hi2 hge hre hepos hecur hslice ⊢
+  have hol := hi.off_le
+  refine ⟨by omega, by rw [hslice]; exact hrun, by rw [hslice]; exact hnl, ?_, ?_, ?_, ?_, ?_, ?_, ?_⟩
+  · show ((nextToken s).1.sl, (nextToken s).1.sc) = lc src (s.off + k)
+    rw [hnt, hstart.1, hstart.2.1, ← hoff1]; exact hi1.pos_eq
+  · show s.off + k ≤ (nextToken s).2.off
+    rw [hnt, ← hoff1]; exact hge
+  · show (nextToken s).2.off ≤ src.length
+    rw [hnt]; exact hi2.off_le
+  · show LInv src (nextToken s).2
+    rw [hnt]; exact hi2
+  · refine ⟨e.off, ?_, ?_, ?_, ?_⟩
+    · show ((nextToken s).1.el, (nextToken s).1.ec) = lc src e.off
+      rw [hnt, hepos]; exact hie.pos_eq
+    · rw [← hoff1]; exact reach_off_le hre
+    · show e.off ≤ (nextToken s).2.off
+      rw [hnt]; rcases hecur with h | h <;> rw [h]
+      · exact Nat.le_refl _
+      · rw [readChar_off]; omega
+    · show (nextToken s).2.off ≤ e.off + 1
+      rw [hnt]; rcases hecur with h | h <;> rw [h]
+      · omega
+      · rw [readChar_off]; omega
+  · intro hty
+    show (nextToken s).1.lit = slice src (s.off + k) (nextToken s).2.off
+    rw [hnt] at hty ⊢
+    have happ := Tiling.literal_is_slice _ _ _ hty
+    generalize baseNextToken (trivia s.rest).nl (trivia s.rest).comments (readChars k s) = r0 at *
+    have h1 : (readChars k s).rest = src.drop (s.off + k) := by rw [hi1.rest_eq, hoff1]
+    have h2 : r0.2.rest = src.drop r0.2.off := hi2.rest_eq
+    have hl : r0.1.lit.length + (src.length - r0.2.off) = src.length - (s.off + k) := by
+      have := congrArg List.length happ
+      rw [List.length_append, h1, h2, List.length_drop, List.length_drop] at this
+      exact this
+    have hle2 := hi2.off_le
+    unfold slice
+    rw [← h1, ← happ]
+    have : r0.2.off - (s.off + k) = r0.1.lit.length := by omega
+    rw [this, List.take_left']
+    rfl
+  · intro hty
+    show (nextToken s).1.type = lookupIdent (nextToken s).1.lit
+    rw [hnt] at hty ⊢
+    exact Tiling.word_is_classified _ _ _ hty
+
+/-- the cursor states from which `lexAll` requests its tokens -/
+def requests : Nat → LS → List LS
+  | 0, _ => []
+  | fuel + 1, s => if (nextToken s).1.type == .eof then [s] else s :: requests fuel (nextToken s).2
+
+/-- the token list is `NextToken` applied to the request states, in order -/
+theorem tokens_of_requests (fuel : Nat) (s : LS) : lexGo fuel s = (requests fuel s).map (fun st => (nextToken st).1) := by
+  induction fuel generalizing s with
+  | zero => rfl
+  | succ fuel ih =>
+    simp only [lexGo, requests]
+    split <;> simp_all
+
+/-- each request starts where the previous token ended -/
+def Adjacent : List LS → Prop
+  | a :: b :: l => b = (nextToken a).2 ∧ Adjacent (b :: l)
+  | _ => True
+
+/-- every request is made from a cursor that agrees with the source, and each one starts where the previous token
+    ended: `token_step` applies to every token of `lexAll src`, and consecutive tokens are adjacent up to the gap -/
+theorem requests_agree_with_source (src : Bytes) (fuel : Nat) (s : LS) (hi : LInv src s) :
+    (∀ st ∈ requests fuel s, LInv src st) ∧ Adjacent (requests fuel s) := by
+  induction fuel generalizing s with
+  | zero => exact ⟨by simp [requests], by simp [requests, Adjacent]⟩
+  | succ fuel ih =>
+    have hn := (token_step src s hi).2.2.2.2.2.2.1
+    simp only [requests]
+    split
+    · exact ⟨by simpa using hi, by simp [Adjacent]⟩
+    · obtain ⟨h1, h2⟩ := ih (nextToken s).2 hn
+      refine ⟨?_, ?_⟩
+      · intro st hst
+        simp only [List.mem_cons] at hst
+        rcases hst with rfl | hst
+        · exact hi
+        · exact h1 st hst
+      · cases hq : requests fuel (nextToken s).2 with
+        | nil => simp [Adjacent]
+        | cons a l =>
+          rw [hq] at h2
+          refine ⟨?_, h2⟩
+          cases fuel with
+          | zero => simp [requests] at hq
+          | succ f =>
+            simp only [requests] at hq
+            split at hq <;> (cases hq; rfl)
+
 /-! Non-vacuity -/
 example : (lexAll [97, 32, 61, 61, 10, 98]).map (fun t => (t.type, t.sl, t.sc)) =
     [(.ident, 0, 0), (.eq, 0, 2), (.ident, 1, 0), (.eof, 1, 1)] := by decide
@@ -113,3 +255,6 @@ end Xjs.C10
 #print axioms Xjs.C10.eof_sticky
 #print axioms Xjs.C10.eof_only_at_end
 #print axioms Xjs.C10.progress
+#print axioms Xjs.C10.token_step
+#print axioms Xjs.C10.tokens_of_requests
+#print axioms Xjs.C10.requests_agree_with_source
